@@ -23,7 +23,7 @@ NOT_DECIDED = ["numerical behaviour of log/log10 (library)"]
 ASSUMPTIONS = ["a point is generic: rows are decided for one filter position with the flag fixed, which is sound because the transform and the chi^2 term are element-wise in the filter axis",
                "<= and < identified for real comparisons"]
 TRUSTED = ["python ast", "sedlint E4/E5"]
-MIN = {'ALG-5': 18, 'ALG-4': 12, 'FLAG-1': 6, 'FLAG-1a': 3, 'ALG-12': 6, 'FLAG-3': 4}
+MIN = {'ALG-5': 18, 'ALG-4': 12, 'FLAG-1': 0, 'FLAG-1a': 3, 'ALG-12': 6, 'FLAG-3': 4}          # (FLAG-1 counts spellings of flag tests: what they decide is compared by value under ALG-4 / ALG-5, so no floor on their number)
 TECHNIQUE = 'static analysis: finite-domain specialisation of AST value numbering (per-flag normal forms) compared with the data-format table'
 
 VOCAB = {'Fs', 'Es', 'data', 'model', 'conf', 'wt', 'F', 'A', 'S', 'lo', 'hi', 'valid', 'L', 'err'}
